@@ -64,6 +64,25 @@ type MemoryInstance struct {
 	ownerModuleEngine ModuleEngine
 
 	expBuffer experimental.LinearMemory
+
+	// expBufferUsers is the number of open module instances that use this
+	// memory: the one that defines it plus those that import it. The custom
+	// allocator's buffer is freed when the last of them is closed.
+	expBufferUsers int32
+}
+
+// addUser records that one more module instance uses this memory (it imports it).
+func (m *MemoryInstance) addUser() {
+	atomic.AddInt32(&m.expBufferUsers, 1)
+}
+
+// releaseUser records that a module instance using this memory was closed, and
+// frees the custom allocator's buffer, if any, when that was the last one.
+func (m *MemoryInstance) releaseUser() {
+	if atomic.AddInt32(&m.expBufferUsers, -1) == 0 && m.expBuffer != nil {
+		m.expBuffer.Free()
+		m.expBuffer = nil
+	}
 }
 
 // NewMemoryInstance creates a new instance based on the parameters in the SectionIDMemory.
@@ -101,6 +120,7 @@ func NewMemoryInstance(memSec *Memory, allocator experimental.MemoryAllocator, m
 		Shared:            memSec.IsShared,
 		expBuffer:         expBuffer,
 		ownerModuleEngine: moduleEngine,
+		expBufferUsers:    1,
 	}
 }
 
